@@ -73,6 +73,7 @@ def code_to_sympy(node, env):
 
 
 def run(chk, repo, tier):
+    run_n12(chk, repo)       # first: N1 below gives up (exit 2) on a counting idiom it does not know
     chk.explanation = (
         'N1: the expression returned by calculate_aic and by each branch of calculate_bic, with the counting idioms '
         'mapped to named counts, equals the formula documented in the docstring (parsed and compared algebraically). '
@@ -626,3 +627,36 @@ def run_n9_n11(chk, repo):
                           'way round)', line=rets[-1].line,
                           witness="search_space=['iiv_diag', 'iiv_block'] with E_p=1, E_q=3: the full block penalty is twice "
                                   "what it should be and the diagonal model is ranked best")
+
+
+def run_n12(chk, repo):
+    """BIC(iiv): the penalty counts the ESTIMATED iiv variance parameters: the count must be restricted to the non-fixed
+    parameters"""
+    from sa import lints
+    N12 = chk.rule('N12', 'calculate_bic type "iiv": the number of omegas depends on the non-fixed parameter list', floor=1)
+    rm = repo.module('pharmpy.modeling.results')
+    f = rm.functions.get('calculate_bic')
+    if f is None:
+        raise AnalysisError('calculate_bic not found')
+    nonfixed = {a.targets[0].id for a in walk_no_nested(f.node) if isinstance(a, ast.Assign)
+                and isinstance(a.targets[0], ast.Name) and 'nonfixed' in unparse(a.value)}
+    branch = None
+    for I in ast.walk(f.node):
+        if isinstance(I, ast.If) and any(isinstance(c, ast.Constant) and c.value == 'iiv' for c in ast.walk(I.test)):
+            branch = I.body
+    if branch is None or not nonfixed:
+        raise AnalysisError(f'N12: branch for type "iiv" / non-fixed parameter list of calculate_bic not found ({sorted(nonfixed)})')
+    deps = lints.dependence(branch)
+    pen = [a for s_ in branch for a in ast.walk(s_) if isinstance(a, ast.Assign) and isinstance(a.targets[0], ast.Name)
+           and a.targets[0].id == 'penalty']
+    if not pen:
+        raise AnalysisError('N12: penalty of the iiv branch not found')
+    used = lints.closure(deps, {x.id for x in ast.walk(pen[-1].value) if isinstance(x, ast.Name)})
+    direct = {x.id for x in ast.walk(pen[-1].value) if isinstance(x, ast.Name)}
+    ok = bool((used | direct) & nonfixed) or 'nonfixed' in unparse(pen[-1].value) or any(
+        'nonfixed' in unparse(s_) for s_ in branch)
+    chk.instance(N12, f'calculate_bic(iiv): `{unparse(pen[-1])[:60]}` counts among the non-fixed parameters {sorted(nonfixed)}: {ok}')
+    if not ok:
+        chk.violation(N12, rm.rel, f.name, unparse(pen[-1])[:90],
+                      'fixed iiv omegas are counted as estimated: every one adds log(n_individuals) to BIC(iiv)', line=pen[-1].lineno,
+                      witness='a candidate with a fixed omega is ranked below an otherwise identical one by iivsearch')
